@@ -90,9 +90,9 @@ static SymSpec gen_spec(bool thorough) {
   const int kmax = open_finding("E1") ? 30 : 32;
   const int kc = (sizeclass == 3 && (s.dist == 0 || s.dist == 5)) ? W({20, 60, 18, 2}) : W({75, 17, 6, 2});
   int k = kc == 0 ? R(0, 12) : kc == 1 ? R(13, 18) : kc == 2 ? R(19, 22) : R(23, kmax);
-  // The encoder's entropy estimate allocates and scans max_value+1 counters in every mode (and the raw scheme a
-  // table of max_value+1 64-bit frequencies), so cost and memory grow with the magnitude, not the length:
-  // magnitudes are capped per tier and the cap is reported.
+  // The raw scheme (and, while finding E1 is open, the encoder's entropy estimate in every mode) allocates and scans
+  // max_value+1 counters, so cost and memory grow with the magnitude, not the length: magnitudes are capped per tier
+  // where that applies and the cap is reported. With E1 fixed, only the forced raw scheme is capped.
   const int mem_cap_bits = thorough ? 27 : 22;
   uint64_t mv = (k >= 32 ? 0xffffffffull : (1ull << k)) + static_cast<uint64_t>(R(-1, 1));
   if (k > 0 && P(25)) mv = static_cast<uint64_t>(R64(0, static_cast<int64_t>(std::min<uint64_t>(mv, 0xffffffffull))));
@@ -102,7 +102,7 @@ static SymSpec gen_spec(bool thorough) {
     count("excluded_E1_symbol_ge_2^31");
   }
   s.method = W({50, 25, 25}) - 1;
-  if (mv > (1ull << mem_cap_bits) + 1) {
+  if (mv > (1ull << mem_cap_bits) + 1 && (s.method == 1 || open_finding("E1"))) {
     mv = (1ull << mem_cap_bits) + static_cast<uint64_t>(R(-1, 1));
     count("capped_by_memory_limit");
   }
@@ -157,7 +157,11 @@ static std::string run_spec(const SymSpec &s) {
   const uint8_t prefix[3] = {0xAB, 0xCD, 0xEF};
   eb.Encode(prefix, 3);
   if (!EncodeSymbols(v.data(), static_cast<int>(v.size()), s.comps, use_opt ? &opt : nullptr, &eb)) {
-    count("encode_rejected");
+    uint32_t mx = 0;
+    for (uint32_t x : v) mx = std::max(mx, x);
+    count(mx >= (1u << 31) ? "encode_rejected_value_needs_32_bits"
+                           : s.method == 1 ? "encode_rejected_forced_raw" : "encode_rejected_other");
+    if (mx >= (1u << 31)) nontrivial(hash_tokens(to_tokens(s)));
     return "";
   }
   count("encode_ok");
